@@ -91,7 +91,7 @@ fn proof_bytes<P: MerkleProof>(p: &P) -> Vec<[u8; 32]> {
     p.as_ref().iter().map(crate::common::hash_bytes).collect()
 }
 
-fn unique_leaf(rng: &mut crate::common::Rng, idx: usize, tree_id: u64) -> Vec<u8> {
+fn unique_leaf(rng: &mut crate::common::SRng, idx: usize, tree_id: u64) -> Vec<u8> {
     let len = rng.random_range(1..40);
     let mut d = vec![0u8; len + 12];
     rng.fill_bytes(&mut d[..len]);
@@ -162,7 +162,7 @@ fn class_family(class: &str) -> &str {
     class
 }
 
-fn check_tree<L: MerkleLeaf, R: MerkleRoot, P: MerkleProof>(ctx: &mut Ctx, rng: &mut crate::common::Rng, c: &Case<L, R, P>, indices: &[usize], deep: bool) {
+fn check_tree<L: MerkleLeaf, R: MerkleRoot, P: MerkleProof>(ctx: &mut Ctx, rng: &mut crate::common::SRng, c: &Case<L, R, P>, indices: &[usize], deep: bool) {
     let root = c.rt.root();
     let h = c.rt.height();
     // root and height agree with the reference
@@ -311,7 +311,7 @@ fn empty_root(height: usize) -> [u8; 32] {
     h
 }
 
-fn pick_indices(rng: &mut crate::common::Rng, n: usize, all_up_to: usize, sample: usize) -> Vec<usize> {
+fn pick_indices(rng: &mut crate::common::SRng, n: usize, all_up_to: usize, sample: usize) -> Vec<usize> {
     if n <= all_up_to {
         return (0..n).collect();
     }
